@@ -11,7 +11,7 @@ P = {
  "C04": ("invariant walker over the live Entry forest at the quiescent point after a clean Process (pointer identity, global visited set, Dir and rpc input/output) + expected-error oracle of the reference resolver + late-fault templates",
          "generated module sets (30 k quick / 400 k thorough), 13 late-fault templates and faults in the older of two revisions; every node reached is checked for name/key, parent pointer, single reachability, kind vs children/type/list attributes, choice children, leftover augments, recorded errors"),
  "C05": ("metamorphic monitor: R repetitions x P load-order permutations on fresh sets compared through a canonical dump; independent (file,line,column) order and duplicate check on every error list; byte comparison of repeated CLI runs",
-         "nineteen tie/conflict shapes (incl. rings of typedefs and groupings) and generated sets with type errors and up to three injected faults (650 sets quick / 20 k thorough), 48 x <=6 executions per set (quick), 128 x <=24 (thorough); map iteration orders are sampled by repetition, not enumerated"),
+         "twenty tie/conflict shapes (incl. rings of typedefs and groupings) and generated sets with type errors and up to three injected faults (650 sets quick / 20 k thorough), 48 x <=6 executions per set (quick), 128 x <=24 (thorough); map iteration orders are sampled by repetition, not enumerated"),
  "C06": ("reference-model monitor (reference expansion of uses with lexical binding) + sharing walker + independence monitor (with/without a module that changes one instance)",
          "30 k / 400 k generated sets with groupings at every scope, equal grouping names in different modules (twins sorting before and after), nested uses, childless directories, if-feature lists and extension statements; independence family (9 k / 150 k): one copy is changed by a deviation/augment or mutated through every exported slice and map, all other copies and the cached grouping must not move"),
  "C07": ("reference-model monitor (reference graft of augments to a fixpoint, expected errors) + offline checker over the hook trace of augment lookups and merges (exactly-once specification)",
@@ -45,25 +45,25 @@ P = {
 }
 # what the third session added to the workloads (appended to the descriptions above)
 EXTRA = {
- "C01": "; hazard sets with derivation chains of 1200-2700 identities (time that grows faster than the square of the chain is a budget overrun)",
+ "C01": "; hazard sets with derivation chains of 1200-2700 identities (time that grows faster than the square of the chain is a budget overrun); hazard templates with member lists that collide in compared types; reads through the nodes in Entry.Exts and Entry.Extra",
  "C02": "; random texts contain statements of real YANG, keyword and argument, in every quoting style",
- "C03": "; one tree in ten has a statement with 10-50 substatements, shuffled",
+ "C03": "; one tree in ten has a statement with 10-50 substatements, shuffled; family processed: 6 k / 100 k generated sets whose syntax trees are walked as built and again after Process",
  "C04": "; three sets in ten are processed twice, processed twice with the entry cache dropped in between, processed first on a part of the files, or get a module first as an older revision; late templates for an augment of a choice that brings a choice, a type given to a node that is no leaf, a chain of augments behind an implicit case, augments written in submodules",
- "C05": "; nineteen shapes now (one identity in several revisions, late augments in conflict, source names with colons); one repetition in eight has a processing run after every load, one in eight a repeated run",
+ "C05": "; twenty shapes now (one identity in several revisions, late augments in conflict, source names with colons); one repetition in eight has a processing run after every load, one in eight a repeated run; shape 19 (orphan submodules chained by broken links), sibling names that differ in case only for the tool",
  "C06": "; an unresolved name whose position lies inside a grouping is a C06 violation too",
  "C07": "; templates for chains of augments behind an implicit case, relative paths that lead into the augment itself, augments without target written in a submodule; one recorded finding (a path that names an implicit case reaches the member)",
- "C08": "; inapplicable deviates on nodes that are removed afterwards, targets named without choice and case, a type for a node that is no leaf, units replaced by the empty string",
- "C09": "; family longchains: 96 / 960 derivation chains of 3 to 13000 (thorough 30000) typedefs in every declaration order, over one or two modules; the tree family also runs the process modes listed under C04",
- "C10": "; one chain in five of depth two and more is spread over modules in which two files bind one prefix to different modules",
- "C11": "; every third load has a processing run after each file, every third a repeated run, one in six a module that arrives first as an older revision; an identityref must point at the identity object of the latest revision",
- "C12": "; header sets in which a module changes its namespace from one revision to the next",
- "C13": "; rejected two-module texts that begin with a newer revision of a loaded module; splits with identities in the submodules and with includes that only another submodule states",
- "C14": "; every third schema is processed twice; the maps returned by NameMap and ValueMap are edited and the enumeration read again",
- "C16": "; the single error of a set must name the faulty statement and no other position; fault kinds for a range outside a typedef's own range and for identity bases that do not resolve",
- "C17": "; paths that leave out the choices and cases above a node (must name nothing unless the reference tree has such a node), data nodes named input and output, import prefixes that read like module names, absolute lookups from an input or output created on demand",
- "C18": "; typedefs of unions and identityrefs against a late revision, late submodule revisions, a search path that grows by a later read",
+ "C08": "; inapplicable deviates on nodes that are removed afterwards, targets named without choice and case, a type for a node that is no leaf, units replaced by the empty string; ordered-by user, deviate statements in four layouts, DefaultValues after deviations of mandatory",
+ "C09": "; family longchains: 96 / 960 derivation chains of 3 to 13000 (thorough 30000) typedefs in every declaration order, over one or two modules; the tree family also runs the process modes listed under C04; patterns that repeat an inherited posix-pattern, references behind a declared but unbound prefix",
+ "C10": "; one chain in five of depth two and more is spread over modules in which two files bind one prefix to different modules; chains whose last restriction arrives through a deviate replace",
+ "C11": "; every third load has a processing run after each file, every third a repeated run, one in six a module that arrives first as an older revision; an identityref must point at the identity object of the latest revision; a revision-pinned family (bases and identityrefs through imports that name a revision), bases named twice, submodules that import under the prefix of their module",
+ "C12": "; header sets in which a module changes its namespace from one revision to the next; include statements in shuffled order",
+ "C13": "; rejected two-module texts that begin with a newer revision of a loaded module; splits with identities in the submodules and with includes that only another submodule states; module names with dots in the files family, an augment in every revision of a submodule in the includes family",
+ "C14": "; every third schema is processed twice; the maps returned by NameMap and ValueMap are edited and the enumeration read again; member lists as the second of two same-kind members of a union",
+ "C16": "; the single error of a set must name the faulty statement and no other position; fault kinds for a range outside a typedef's own range and for identity bases that do not resolve; unterminated later pieces of a concatenation, lone slash tokens, fault kinds for deviates that cannot be applied and identity bases",
+ "C17": "; paths that leave out the choices and cases above a node (must name nothing unless the reference tree has such a node), data nodes named input and output, import prefixes that read like module names, absolute lookups from an input or output created on demand; paths that begin with the name of the module as a step",
+ "C18": "; typedefs of unions and identityrefs against a late revision, late submodule revisions, a search path that grows by a later read; fetched modules that augment, files repaired after a rejected read, one witness history of a recorded finding",
  "C19": "; sets with texts the syntax tree builder refuses, sets loaded from files whose import names a revision that is not there (also as the shared set of the reader rounds)",
- "C20": "; underlying writers that accept only part of the output without an error",
+ "C20": "; underlying writers that accept only part of the output without an error; writers that go on after a short write without error",
 }
 LEVEL = {"C20": "fault_enumeration"}
 checks = []
